@@ -816,7 +816,11 @@ def _repl(v):
     if isinstance(v, gfapy.CIGAR):
         return gfapy.CIGAR([gfapy.CIGAR.Operation(9, "M")])
     if isinstance(v, list):
+        if type(v) is not list:          # Trace, NumericArray: a value of the same class
+            return type(v)([9])
         return [9]
+    if isinstance(v, gfapy.AlignmentPlaceholder):
+        return "9M"
     if isinstance(v, dict):
         return {"zz": 9}
     if isinstance(v, (gfapy.Line, gfapy.Placeholder)):
